@@ -712,9 +712,15 @@ class Driver:
             evs.append("dispatch")
         infl = [self.trk_of_batch[i] for i, b in enumerate(self.backend.batches) if not b["started"]] if self.backend else []
         stall = self.case.get("stall_after")
-        stalled = stall is not None and self.call_no == 1 and len(self.cb_started) >= stall
+        # the call whose completions are withheld (default: the first one); with "stall_call": k > 1 the earlier calls
+        # run under the random schedule and call k is the one in which nothing (more) completes
+        sc = self.case.get("stall_call", 1)
+        if self.call_no != getattr(self, "_stall_seen_call", None):
+            self._stall_seen_call = self.call_no
+            self._cb_before_call = len(self.cb_started)
+        stalled = stall is not None and self.call_no == sc and len(self.cb_started) - (self._cb_before_call if sc > 1 else 0) >= stall
         in_start = at_cbs or (self.consumer_busy and not self.pending_pull)
-        hold = self.case.get("cb_after_start") and self.call_no == 1 and in_start
+        hold = self.case.get("cb_after_start") and self.call_no == sc and in_start
         if infl and not stalled and not hold and not (self.case.get("no_cb_first_call") and self.call_no == 1):
             evs.append("cb")
         if self.mid:
@@ -764,7 +770,7 @@ class Driver:
             weights = {"dispatch": 4, "cb": 3, "cbfin": 3, "pull": 2, "close": p_close * 10, "call": 5, "fetched": 1}
             ws = [weights[e] for e in evs]
             k = self.rng.choices(evs, ws)[0] if sum(ws) > 0 else "pull"
-            if self.case.get("policy") == "pull_first" and self.call_no == 1:
+            if self.case.get("policy") == "pull_first" and self.call_no == self.case.get("stall_call", 1):
                 # scripted shape for the timeout scenarios: the consumer always asks first, completions come
                 # while it waits, the dispatch section of a callback runs before the next request
                 for pref in ("dispatch", "cbfin", "pull", "cb"):
